@@ -374,7 +374,111 @@ impl Family for Assignments {
     }
 }
 
+
+// ---------------------------------------------------------------------------------------------------------------
+// Repetition: the same input gives the same reports, in the same order, whatever the hash seeds are.
+
+/// Programs that make one phase report several diagnostics at once (several repeated attributes on one element,
+/// several redefinitions in one container, several duplicate tags / enumerator values, several cycles, several
+/// unresolved or deprecated references, several broken links in one comment, several redeclared inherited
+/// operations, ...): wherever a report is produced by walking a hash container, its order shows here.
+const DENSE: [&str; 26] = [
+    "module M\ninterface I {\n  [oneway] [compress(Args)] [oneway] [compress(Args)] [deprecated] [deprecated] [slicedFormat(Args)] [slicedFormat(Args)] op()\n}\n",
+    "module M\n[deprecated] [allow(All)] [deprecated] [allow(All)] [cs::x] [cs::x] struct S {}\n",
+    "module M\n[oneway] [compress(Args)] [slicedFormat(Args)] struct S {}\n[oneway] [compress(Args)] [slicedFormat(Args)] enum E { A }\n",
+    "module M\nstruct S { a: int32, a: int32, b: int32, b: int32, c: int32, c: int32, d: int32, d: int32 }\n",
+    "module M\nstruct A {}\nstruct B {}\nstruct C {}\nstruct D {}\nstruct A {}\nstruct B {}\nstruct C {}\nstruct D {}\n",
+    "module M\ninterface I { a() a() b() b() c() c() op(x: int32, x: int32, y: int32, y: int32) -> (r: int32, r: int32, s: int32, s: int32) }\n",
+    "module M\nenum E { A, A, B, B, C, C, D, D }\n",
+    "module M\nenum E : uint8 { A = 1, B = 1, C = 2, D = 2, E = 3, F = 3, G = 4, H = 4 }\n",
+    "module M\nenum E : uint8 { A = 256, B = 257, C = 258, D = -1, E = -2, F = 300 }\n",
+    "module M\nstruct S { tag(1) a: int32?, tag(1) b: int32?, tag(2) c: int32?, tag(2) d: int32?, tag(3) e: int32?, tag(3) f: int32? }\n",
+    "module M\nstruct S { tag(1) a: int32, tag(2) b: int32, tag(3) c: int32, tag(4) d: int32 }\n",
+    "module M\ncompact struct S { tag(1) a: int32?, tag(2) b: int32?, tag(3) c: int32? }\n",
+    "module M\nstruct S { a: N1, b: N2, c: N3, d: N4, e: N5, f: N6 }\n",
+    "module M\nstruct A1 { x: A2 }\nstruct A2 { x: A1 }\nstruct B1 { x: B2 }\nstruct B2 { x: B1 }\nstruct C1 { x: C2 }\nstruct C2 { x: C1 }\nstruct D1 { x: D1 }\n",
+    "module M\nstruct H { a: H1, b: H2, c: H3 }\nstruct H1 { h: H }\nstruct H2 { h: H }\nstruct H3 { h: H }\n",
+    "module M\n[deprecated] struct D1 {}\n[deprecated] struct D2 {}\n[deprecated] struct D3 {}\nstruct U { a: D1, b: D2, c: D3, d: Sequence<D1>, e: Dictionary<int32, D2>, f: D3? }\n",
+    "module M\n/// {@link N1} {@link N2} {@link N3}\n/// {@link N4} and {@link N5}\n/// @see N6\n/// @see N7\nstruct S {}\n",
+    "module M\ninterface I {\n  /// @param a: x\n  /// @param b: x\n  /// @param c: x\n  /// @returns r: x\n  /// @returns s: x\n  op()\n}\n",
+    "module M\n/// @param a: x\n/// @returns: y\nstruct S {}\n/// @param a: x\n/// @returns: y\nenum E { A }\n/// @param a: x\n/// @returns: y\ncustom C\n",
+    "module M\ninterface B1 { a() b() }\ninterface B2 { c() d() }\ninterface D : B1, B2 { a() b() c() d() }\n",
+    "module M\nstruct K { a: float32, b: Sequence<int32>, c: float64, d: Dictionary<int32, int32> }\nstruct U { d: Dictionary<K, int32> }\n",
+    "module M\nstruct U { a: Dictionary<float32, int32>, b: Dictionary<Sequence<int32>, int32>, c: Dictionary<float64, int32>, d: Dictionary<int32?, int32> }\n",
+    "module M\ntypealias A1 = A2\ntypealias A2 = A1\ntypealias B1 = B2\ntypealias B2 = B1\ntypealias C1 = C1\nstruct S { a: A1, b: B1, c: C1 }\n",
+    "module M\ninterface I1 : I2 {}\ninterface I2 : I1 {}\ninterface J1 : J2 {}\ninterface J2 : J1 {}\ninterface K1 : K1 {}\n",
+    "module M\n[bogus1] [bogus2] [bogus3] [bogus4] struct S {}\n[allow(Nope1, Nope2, Nope3)] struct T {}\n",
+    "module M\ninterface I { op(stream a: int32, stream b: int32, c: int32) -> (stream x: int32, stream y: int32, z: int32) }\nunchecked enum E : float32 { A(x: int32), B(y: int32) }\ncompact enum F : uint8 { A }\n",
+];
+
+pub struct Repetition {
+    pub runs: usize,
+}
+impl Repetition {
+    fn texts(&self, idx: u64) -> Vec<String> {
+        let n = DENSE.len() as u64;
+        if idx < n {
+            return vec![DENSE[idx as usize].to_string()];
+        }
+        // ordered pairs: the second program in a second module of the same compilation (two files)
+        let k = idx - n;
+        let (a, b) = ((k / n) as usize, (k % n) as usize);
+        vec![DENSE[a].to_string(), DENSE[b].replace("module M", "module N")]
+    }
+}
+impl Family for Repetition {
+    fn name(&self) -> String {
+        format!("repetition/{} diagnostic-dense programs alone and in all ordered pairs (two files), each compiled {} times with fresh hash seeds: reports identical in content and order", DENSE.len(), self.runs)
+    }
+    fn len(&self) -> u64 {
+        let n = DENSE.len() as u64;
+        n + n * n
+    }
+    fn describe(&self, idx: u64) -> Value {
+        json!({"files": self.texts(idx), "compilations": self.runs})
+    }
+    fn run(&self, idx: u64) -> CaseOut {
+        let texts = self.texts(idx);
+        let refs: Vec<&str> = texts.iter().map(|s| s.as_str()).collect();
+        let mut out = CaseOut::new(hash_str(&format!("c15rep{idx}")));
+        out.steps = 0;
+        out.validated = 1;
+        let show = || texts.iter().enumerate().map(|(i, t)| format!("--- file {i} ---\n{t}")).collect::<Vec<_>>().join("");
+        let mut first: Option<Vec<String>> = None;
+        for run in 0..self.runs {
+            out.steps += 1;
+            let diags = match compile_texts(&refs, None) {
+                Ok((_ast, _files, d)) => d,
+                Err((loc, msg)) => {
+                    out.violate(format!("c15/repetition/panic@{loc}"), format!("panic at {loc}: {msg}\n{}", show()));
+                    return out;
+                }
+            };
+            let all: Vec<String> = diags.iter().map(|d| format!("{} {} {:?} {:?} {:?} notes {:?}", d.level, d.code, d.message, d.file, d.span, d.notes)).collect();
+            match &first {
+                None => {
+                    out.nontrivial = all.len() >= 2;
+                    out.class = format!("{}-diagnostics", all.len().min(9));
+                    first = Some(all);
+                }
+                Some(f) => {
+                    if *f != all {
+                        let mut a = f.clone();
+                        let mut b = all.clone();
+                        a.sort();
+                        b.sort();
+                        let what = if a == b { "order" } else { "content" };
+                        out.violate(format!("c15/repetition/reports-differ-between-runs/{what}"), format!("compilation 0 reported\n  {}\ncompilation {run} of the same input reported\n  {}\n{}", f.join("\n  "), all.join("\n  "), show()));
+                        break;
+                    }
+                }
+            }
+        }
+        out
+    }
+}
+
 pub fn families(tier: &str) -> Vec<Box<dyn Family>> {
     let quick = tier == "quick";
-    vec![Box::new(Assignments::new(tier)), Box::new(Permutations::new(if quick { 4 } else { 5 }))]
+    vec![Box::new(Assignments::new(tier)), Box::new(Repetition { runs: if quick { 8 } else { 64 } }), Box::new(Permutations::new(if quick { 4 } else { 5 }))]
 }
